@@ -564,7 +564,8 @@ pub fn c05(cfg: &Cfg, rep: &mut Report) {
                 sem,
                 bio_ok: true,
             };
-            c05_check(cfg, rep, i as u64, &case, 16);
+            let rs = cfg.get_usize("rand_seeds", 16);
+            c05_check(cfg, rep, i as u64, &case, rs);
         }
     }
     for i in 0..cfg.cases {
@@ -573,7 +574,8 @@ pub fn c05(cfg: &Cfg, rep: &mut Report) {
         }
         let case_seed = cfg.case_seed(i);
         let case = small_case(case_seed, nm);
-        c05_check(cfg, rep, case_seed, &case, if cfg.thorough { 8 } else { 4 });
+        let rs = cfg.get_usize("rand_seeds", if cfg.thorough { 8 } else { 4 });
+        c05_check(cfg, rep, case_seed, &case, rs);
     }
 }
 
